@@ -882,16 +882,6 @@ Fixpoint all_requests (fuel : nat) (b : bytes) : list (list bytes) :=
            end
   end.
 
-(* is the re-sent request of an ASK redirect preceded by ASKING on the target connection? *)
-Fixpoint ask_without_asking (reqs : list (list bytes)) (prev_asking : bool) : bool :=
-  match reqs with
-  | [] => false
-  | a :: rest =>
-      let key := hd [] (tl a) in
-      let is_asking := beqb (to_lower (hd [] a)) (bs "asking") in
-      if (find_sub key (bs "ask") && negb prev_asking)%bool then true else ask_without_asking rest is_asking
-  end.
-
 Fixpoint check_replies (limit : Z) (pw : bytes) (reqs : list (list bytes)) (reps : list bytes) (i : nat) : sx :=
   match reps, reqs with
   | [], _ => ok
@@ -928,11 +918,11 @@ Definition replica_without_readonly (ranges : list sx) (addr : bytes) (reqs : li
 
 (* C04: a request (not redirected there by a node, not part of the handshake or the topology probe)
    must have been sent to the node that owns the slot of its first key in the configured table *)
-Definition misrouted (ranges : list sx) (addr : bytes) (a : list bytes) : bool :=
+Definition misrouted_raw (redirected_ok : bool) (ranges : list sx) (addr : bytes) (a : list bytes) : bool :=
   let cmd := to_lower (hd [] a) in
   let key := if (beqb cmd (bs "eval") || beqb cmd (bs "evalsha"))%bool then nth 3 a [] else hd [] (tl a) in
   if (beqb cmd (bs "auth") || beqb cmd (bs "readonly") || beqb cmd (bs "cluster") || beqb cmd (bs "asking"))%bool then false
-  else if (find_sub key (bs "mov") || find_sub key (bs "ask"))%bool then false
+  else if (redirected_ok && (find_sub key (bs "mov") || find_sub key (bs "ask")))%bool then false
   else match tl a with
        | [] => false
        | _ =>
@@ -946,6 +936,21 @@ Definition misrouted (ranges : list sx) (addr : bytes) (a : list bytes) : bool :
          | _ => true      (* unowned slot: nothing may be sent for it *)
          end
        end.
+
+Definition misrouted := misrouted_raw true.
+
+(* C13: a request whose key makes the first node answer -ASK, found on a connection to a node that
+   owns its slot in none of the tables of the history, was re-sent there after the redirect: it must
+   be immediately preceded by ASKING on that connection *)
+Fixpoint ask_without_asking (tables : list (list sx)) (addr : bytes) (reqs : list (list bytes)) (prev_asking : bool) : bool :=
+  match reqs with
+  | [] => false
+  | a :: rest =>
+      let key := hd [] (tl a) in
+      let is_asking := beqb (to_lower (hd [] a)) (bs "asking") in
+      if (find_sub key (bs "ask") && negb prev_asking && forallb (fun t => misrouted_raw false t addr a) tables)%bool then true
+      else ask_without_asking tables addr rest is_asking
+  end.
 
 (* C16: a timeout scan that follows a task round (so every routed fragment has been written) with
    every deadline passed completes every request: no open client keeps a queued request *)
@@ -1016,7 +1021,7 @@ Definition o_loop (a : sx) : sx :=
                     else if existsb (fun a => forallb (fun t => misrouted t addr a) tables) reqs then viol "request-delivered-to-a-node-that-does-not-own-the-slot" [SB addr; SN k]
                     else if replica_without_readonly ranges addr reqs then viol "replica-connection-used-without-readonly" [SB addr; SN k]
                     else if negb (nondecreasing_per_client reqs []) then viol "requests-of-one-client-reordered-on-a-node" [SB addr; SN k]
-                    else if (negb (beqb addr (bs "10.1.0.1:7000")) && ask_without_asking reqs false)%bool then viol "ask-redirect-without-asking" [SB addr; SN k]
+                    else if ask_without_asking tables addr reqs false then viol "ask-redirect-without-asking" [SB addr; SN k]
                     else ok
                 | _ => bad
                 end in
